@@ -221,6 +221,8 @@ def gen_case(rng, idx, tier):
         extra = "%s %s" % (hx(sl), hx(r.choice([1.0, 1.0, r.uniform(0.01, 10)])))
     elif kind == "meta":
         extra = r.choice(["full", "step"])
+        if r.random() < 0.6:
+            extra += " %d" % r.choice([1, 3, 4, 6])
     kname = "brent" if kind == "brentin" else kind
     tol_s = hx(tol) if r.random() < 0.95 else "-"
     lines.append("opt %s %s %s %d %s" % (kname, pol, tol_s, mx, extra))
